@@ -37,6 +37,7 @@ import Kanzi.Drv.ROLZ
 import Kanzi.Drv.Text
 import Kanzi.Drv.DecForge
 import Kanzi.Drv.AnsDec
+import Kanzi.Drv.HufDec
 import Kanzi.Drv.ImageGen3
 
 open Kanzi
@@ -224,6 +225,7 @@ def main (args : List String) : IO UInt32 := do
   | ["text"] => loop stdin stdout Kanzi.Drv.text; return 0
   | ["decforge"] => loop stdin stdout Kanzi.Drv.decforge; return 0
   | ["ansdec"] => loop stdin stdout Kanzi.Drv.ansdec; return 0
+  | ["hufdec"] => loop stdin stdout Kanzi.Drv.hufdec; return 0
   | ["imagegen3"] => loop stdin stdout Kanzi.Drv.imagegen3; return 0
   | ["image"] => loop stdin stdout Kanzi.Drv.image; return 0
   | _ => IO.eprintln "usage: kmodel <norm>"; return 2
